@@ -302,18 +302,24 @@ theorem ok_of (F : FloatFmt) (hF : F = f32 ∨ F = f64) : FloatFmt.ok F := by
   · exact f32_ok
   · exact f64_ok
 
+/-- what the comparison theorems use of a float format: the structural bounds and the NaN test read on the fields -/
+def FmtCmp (F : FloatFmt) : Prop :=
+  FloatFmt.ok F ∧ ∀ b : Nat, F.isNan b = (decide ((F.parts b).2.1 > F.expMax) && decide ((F.parts b).2.2 ≠ 0))
+
+theorem fmtCmp_of (F : FloatFmt) (hF : F = f32 ∨ F = f64) : FmtCmp F := ⟨ok_of F hF, isNan_iff F hF⟩
+
 /-! ### Task D: fixed against float -/
 
-theorem finite_kind (A : Layout) (hA : A.valid) (F : FloatFmt) (hF : F = f32 ∨ F = f64) (fb : Nat) (num e : Int)
+theorem finite_kind_gen (A : Layout) (hA : A.valid) (F : FloatFmt) (hF : FmtCmp F) (fb : Nat) (num e : Int)
     (h : floatExact F fb = some (num, e)) :
     ∃ conv, toFloatKind F fb A.f A.intBits = .finite (decide (num < 0)) conv ∧
       ConvOf conv (rneScaled num (e + A.f)) (dirExact num (e + A.f)) (A.f + A.intBits) := by
   have hD : 0 < A.f + A.intBits := by unfold Layout.intBits; have := hA.2; have := valid_pos hA; omega
-  exact toFloatKind_spec F (ok_of F hF) fb A.f A.intBits hD num e h
+  exact toFloatKind_spec F (hF.1) fb A.f A.intBits hD num e h
 
-theorem isNan_finite (F : FloatFmt) (hF : F = f32 ∨ F = f64) (fb : Nat) (num e : Int)
+theorem isNan_finite_gen (F : FloatFmt) (hF : FmtCmp F) (fb : Nat) (num e : Int)
     (h : floatExact F fb = some (num, e)) : F.isNan fb = false := by
-  rw [isNan_iff F hF]
+  rw [hF.2]
   have : ¬ (F.parts fb).2.1 > F.expMax := by
     intro hgt
     have := (floatExact_none_iff F fb).2 hgt
@@ -321,40 +327,40 @@ theorem isNan_finite (F : FloatFmt) (hF : F = f32 ∨ F = f64) (fb : Nat) (num e
   simp [this]
 
 /-- finite floats: `partial_cmp` is the exact ordering of the two values -/
-theorem partialCmpFloat_finite (A : Layout) (hA : A.valid) (F : FloatFmt) (hF : F = f32 ∨ F = f64) (a : Int) (ha : inRange A a)
+theorem partialCmpFloat_finite_gen (A : Layout) (hA : A.valid) (F : FloatFmt) (hF : FmtCmp F) (a : Int) (ha : inRange A a)
     (fb : Nat) (num e : Int) (h : floatExact F fb = some (num, e)) :
     A.partialCmpFloat F a fb = some (cmpExactFloat A.f a num e) := by
-  obtain ⟨conv, hk, hco⟩ := finite_kind A hA F hF fb num e h
+  obtain ⟨conv, hk, hco⟩ := finite_kind_gen A hA F hF fb num e h
   unfold Layout.partialCmpFloat
   rw [hk]
   exact (finite_core A hA a ha num e conv hco).1
 
-theorem ltFloat_finite (A : Layout) (hA : A.valid) (F : FloatFmt) (hF : F = f32 ∨ F = f64) (a : Int) (ha : inRange A a)
+theorem ltFloat_finite_gen (A : Layout) (hA : A.valid) (F : FloatFmt) (hF : FmtCmp F) (a : Int) (ha : inRange A a)
     (fb : Nat) (num e : Int) (h : floatExact F fb = some (num, e)) :
     A.ltFloat F a fb = decide (cmpExactFloat A.f a num e = -1) := by
-  obtain ⟨conv, hk, hco⟩ := finite_kind A hA F hF fb num e h
+  obtain ⟨conv, hk, hco⟩ := finite_kind_gen A hA F hF fb num e h
   unfold Layout.ltFloat
   rw [hk]
   exact (finite_core A hA a ha num e conv hco).2.1
 
-theorem floatLt_finite (A : Layout) (hA : A.valid) (F : FloatFmt) (hF : F = f32 ∨ F = f64) (a : Int) (ha : inRange A a)
+theorem floatLt_finite_gen (A : Layout) (hA : A.valid) (F : FloatFmt) (hF : FmtCmp F) (a : Int) (ha : inRange A a)
     (fb : Nat) (num e : Int) (h : floatExact F fb = some (num, e)) :
     A.floatLt F fb a = decide (cmpExactFloat A.f a num e = 1) := by
-  obtain ⟨conv, hk, hco⟩ := finite_kind A hA F hF fb num e h
+  obtain ⟨conv, hk, hco⟩ := finite_kind_gen A hA F hF fb num e h
   unfold Layout.floatLt
   rw [hk]
   exact (finite_core A hA a ha num e conv hco).2.2.1
 
-theorem eqFloat_finite (A : Layout) (hA : A.valid) (F : FloatFmt) (hF : F = f32 ∨ F = f64) (a : Int) (ha : inRange A a)
+theorem eqFloat_finite_gen (A : Layout) (hA : A.valid) (F : FloatFmt) (hF : FmtCmp F) (a : Int) (ha : inRange A a)
     (fb : Nat) (num e : Int) (h : floatExact F fb = some (num, e)) :
     A.eqFloat F a fb = decide (cmpExactFloat A.f a num e = 0) := by
-  obtain ⟨conv, hk, hco⟩ := finite_kind A hA F hF fb num e h
+  obtain ⟨conv, hk, hco⟩ := finite_kind_gen A hA F hF fb num e h
   unfold Layout.eqFloat
   rw [hk]
   exact (finite_core A hA a ha num e conv hco).2.2.2
 
 /-- finite floats: every operator, in both operand orders, reads off the exact ordering `c` of `a / 2^f` and the float -/
-theorem float_finite_ops (A : Layout) (hA : A.valid) (F : FloatFmt) (hF : F = f32 ∨ F = f64) (a : Int) (ha : inRange A a)
+theorem float_finite_ops_gen (A : Layout) (hA : A.valid) (F : FloatFmt) (hF : FmtCmp F) (a : Int) (ha : inRange A a)
     (fb : Nat) (num e : Int) (h : floatExact F fb = some (num, e)) :
     A.eqFloat F a fb = decide (cmpExactFloat A.f a num e = 0) ∧
     A.ltFloat F a fb = decide (cmpExactFloat A.f a num e = -1) ∧
@@ -366,11 +372,11 @@ theorem float_finite_ops (A : Layout) (hA : A.valid) (F : FloatFmt) (hF : F = f3
     A.floatGt F fb a = decide (cmpExactFloat A.f a num e = -1) ∧
     A.floatGe F fb a = decide (cmpExactFloat A.f a num e ≠ 1) ∧
     A.floatPartialCmp F fb a = some (-(cmpExactFloat A.f a num e)) := by
-  have hnan := isNan_finite F hF fb num e h
-  have hlt := ltFloat_finite A hA F hF a ha fb num e h
-  have hfl := floatLt_finite A hA F hF a ha fb num e h
-  have hpc := partialCmpFloat_finite A hA F hF a ha fb num e h
-  refine ⟨eqFloat_finite A hA F hF a ha fb num e h, hlt, ?_, hfl, ?_, hfl, ?_, hlt, ?_, ?_⟩
+  have hnan := isNan_finite_gen F hF fb num e h
+  have hlt := ltFloat_finite_gen A hA F hF a ha fb num e h
+  have hfl := floatLt_finite_gen A hA F hF a ha fb num e h
+  have hpc := partialCmpFloat_finite_gen A hA F hF a ha fb num e h
+  refine ⟨eqFloat_finite_gen A hA F hF a ha fb num e h, hlt, ?_, hfl, ?_, hfl, ?_, hlt, ?_, ?_⟩
   · unfold Layout.leFloat; rw [hnan, hfl, ← decide_not]; rfl
   · unfold Layout.geFloat; rw [hnan, hlt, ← decide_not]; rfl
   · unfold Layout.floatLe; rw [hnan, hlt, ← decide_not]; rfl
@@ -378,7 +384,7 @@ theorem float_finite_ops (A : Layout) (hA : A.valid) (F : FloatFmt) (hF : F = f3
   · unfold Layout.floatPartialCmp; rw [hpc]; rfl
 
 /-- NaN is unordered with, and different from, every fixed-point number, in both operand orders -/
-theorem float_nan (A : Layout) (F : FloatFmt) (hF : F = f32 ∨ F = f64) (a : Int) (fb : Nat)
+theorem float_nan_gen (A : Layout) (F : FloatFmt) (hF : FmtCmp F) (a : Int) (fb : Nat)
     (h : floatExact F fb = none) (hm : (F.parts fb).2.2 ≠ 0) :
     A.partialCmpFloat F a fb = none ∧ A.floatPartialCmp F fb a = none ∧
     A.eqFloat F a fb = false ∧
@@ -387,7 +393,7 @@ theorem float_nan (A : Layout) (F : FloatFmt) (hF : F = f32 ∨ F = f64) (a : In
   have hk := toFloatKind_nonfinite F fb A.f A.intBits h
   rw [if_neg hm] at hk
   have hnan : F.isNan fb = true := by
-    rw [isNan_iff F hF]
+    rw [hF.2]
     have := (floatExact_none_iff F fb).1 h
     simp [this, hm]
   have hpc : A.partialCmpFloat F a fb = none := by unfold Layout.partialCmpFloat; rw [hk]
@@ -402,7 +408,7 @@ theorem float_nan (A : Layout) (F : FloatFmt) (hF : F = f32 ∨ F = f64) (a : In
   · unfold Layout.floatGe; rw [hnan]; rfl
 
 /-- `±∞` is outside every fixed-point value (`neg` is the sign bit of the float) -/
-theorem float_infinite (A : Layout) (F : FloatFmt) (hF : F = f32 ∨ F = f64) (a : Int) (fb : Nat)
+theorem float_infinite_gen (A : Layout) (F : FloatFmt) (hF : FmtCmp F) (a : Int) (fb : Nat)
     (h : floatExact F fb = none) (hm : (F.parts fb).2.2 = 0) :
     A.partialCmpFloat F a fb = some (if (F.parts fb).1 then 1 else -1) ∧
     A.floatPartialCmp F fb a = some (if (F.parts fb).1 then -1 else 1) ∧
@@ -414,7 +420,7 @@ theorem float_infinite (A : Layout) (F : FloatFmt) (hF : F = f32 ∨ F = f64) (a
   have hk := toFloatKind_nonfinite F fb A.f A.intBits h
   rw [if_pos hm] at hk
   have hnan : F.isNan fb = false := by
-    rw [isNan_iff F hF]
+    rw [hF.2]
     simp [hm]
   have hpc : A.partialCmpFloat F a fb = some (if (F.parts fb).1 then 1 else -1) := by
     unfold Layout.partialCmpFloat; rw [hk]
@@ -428,6 +434,71 @@ theorem float_infinite (A : Layout) (F : FloatFmt) (hF : F = f32 ∨ F = f64) (a
   · unfold Layout.geFloat; rw [hnan, hlt]; simp
   · unfold Layout.floatLe; rw [hnan, hlt]; simp
   · unfold Layout.floatGe; rw [hnan, hfl]; rfl
+
+/-! ### the instances for `f32` / `f64` (names and statements as before the generalisation to `FmtCmp`) -/
+
+theorem finite_kind (A : Layout) (hA : A.valid) (F : FloatFmt) (hF : F = f32 ∨ F = f64) (fb : Nat) (num e : Int)
+    (h : floatExact F fb = some (num, e)) :
+    ∃ conv, toFloatKind F fb A.f A.intBits = .finite (decide (num < 0)) conv ∧
+      ConvOf conv (rneScaled num (e + A.f)) (dirExact num (e + A.f)) (A.f + A.intBits) :=
+  finite_kind_gen A hA F (fmtCmp_of F hF) fb num e h
+
+theorem isNan_finite (F : FloatFmt) (hF : F = f32 ∨ F = f64) (fb : Nat) (num e : Int)
+    (h : floatExact F fb = some (num, e)) : F.isNan fb = false :=
+  isNan_finite_gen F (fmtCmp_of F hF) fb num e h
+
+theorem partialCmpFloat_finite (A : Layout) (hA : A.valid) (F : FloatFmt) (hF : F = f32 ∨ F = f64) (a : Int) (ha : inRange A a)
+    (fb : Nat) (num e : Int) (h : floatExact F fb = some (num, e)) :
+    A.partialCmpFloat F a fb = some (cmpExactFloat A.f a num e) :=
+  partialCmpFloat_finite_gen A hA F (fmtCmp_of F hF) a ha fb num e h
+
+theorem ltFloat_finite (A : Layout) (hA : A.valid) (F : FloatFmt) (hF : F = f32 ∨ F = f64) (a : Int) (ha : inRange A a)
+    (fb : Nat) (num e : Int) (h : floatExact F fb = some (num, e)) :
+    A.ltFloat F a fb = decide (cmpExactFloat A.f a num e = -1) :=
+  ltFloat_finite_gen A hA F (fmtCmp_of F hF) a ha fb num e h
+
+theorem floatLt_finite (A : Layout) (hA : A.valid) (F : FloatFmt) (hF : F = f32 ∨ F = f64) (a : Int) (ha : inRange A a)
+    (fb : Nat) (num e : Int) (h : floatExact F fb = some (num, e)) :
+    A.floatLt F fb a = decide (cmpExactFloat A.f a num e = 1) :=
+  floatLt_finite_gen A hA F (fmtCmp_of F hF) a ha fb num e h
+
+theorem eqFloat_finite (A : Layout) (hA : A.valid) (F : FloatFmt) (hF : F = f32 ∨ F = f64) (a : Int) (ha : inRange A a)
+    (fb : Nat) (num e : Int) (h : floatExact F fb = some (num, e)) :
+    A.eqFloat F a fb = decide (cmpExactFloat A.f a num e = 0) :=
+  eqFloat_finite_gen A hA F (fmtCmp_of F hF) a ha fb num e h
+
+theorem float_finite_ops (A : Layout) (hA : A.valid) (F : FloatFmt) (hF : F = f32 ∨ F = f64) (a : Int) (ha : inRange A a)
+    (fb : Nat) (num e : Int) (h : floatExact F fb = some (num, e)) :
+    A.eqFloat F a fb = decide (cmpExactFloat A.f a num e = 0) ∧
+    A.ltFloat F a fb = decide (cmpExactFloat A.f a num e = -1) ∧
+    A.leFloat F a fb = decide (cmpExactFloat A.f a num e ≠ 1) ∧
+    A.gtFloat F a fb = decide (cmpExactFloat A.f a num e = 1) ∧
+    A.geFloat F a fb = decide (cmpExactFloat A.f a num e ≠ -1) ∧
+    A.floatLt F fb a = decide (cmpExactFloat A.f a num e = 1) ∧
+    A.floatLe F fb a = decide (cmpExactFloat A.f a num e ≠ -1) ∧
+    A.floatGt F fb a = decide (cmpExactFloat A.f a num e = -1) ∧
+    A.floatGe F fb a = decide (cmpExactFloat A.f a num e ≠ 1) ∧
+    A.floatPartialCmp F fb a = some (-(cmpExactFloat A.f a num e)) :=
+  float_finite_ops_gen A hA F (fmtCmp_of F hF) a ha fb num e h
+
+theorem float_nan (A : Layout) (F : FloatFmt) (hF : F = f32 ∨ F = f64) (a : Int) (fb : Nat)
+    (h : floatExact F fb = none) (hm : (F.parts fb).2.2 ≠ 0) :
+    A.partialCmpFloat F a fb = none ∧ A.floatPartialCmp F fb a = none ∧
+    A.eqFloat F a fb = false ∧
+    A.ltFloat F a fb = false ∧ A.leFloat F a fb = false ∧ A.gtFloat F a fb = false ∧ A.geFloat F a fb = false ∧
+    A.floatLt F fb a = false ∧ A.floatLe F fb a = false ∧ A.floatGt F fb a = false ∧ A.floatGe F fb a = false :=
+  float_nan_gen A F (fmtCmp_of F hF) a fb h hm
+
+theorem float_infinite (A : Layout) (F : FloatFmt) (hF : F = f32 ∨ F = f64) (a : Int) (fb : Nat)
+    (h : floatExact F fb = none) (hm : (F.parts fb).2.2 = 0) :
+    A.partialCmpFloat F a fb = some (if (F.parts fb).1 then 1 else -1) ∧
+    A.floatPartialCmp F fb a = some (if (F.parts fb).1 then -1 else 1) ∧
+    A.eqFloat F a fb = false ∧
+    A.ltFloat F a fb = !(F.parts fb).1 ∧ A.leFloat F a fb = !(F.parts fb).1 ∧
+    A.gtFloat F a fb = (F.parts fb).1 ∧ A.geFloat F a fb = (F.parts fb).1 ∧
+    A.floatLt F fb a = (F.parts fb).1 ∧ A.floatLe F fb a = (F.parts fb).1 ∧
+    A.floatGt F fb a = !(F.parts fb).1 ∧ A.floatGe F fb a = !(F.parts fb).1 :=
+  float_infinite_gen A F (fmtCmp_of F hF) a fb h hm
 
 end Sfx.CmpPf
 
